@@ -122,7 +122,7 @@ Section Explore.
     match step_notime c s l with Some _ => true | None => false end.
 
   Definition loop_labels : list label :=
-    [ILoopShutdown; ILoopPause; ILoopResume; ILoopAuditCheck; ILoopAuditConfirm; ILoopCap;
+    [ILoopShutdown; ILoopPause; ILoopResume; ILoopUnbusy; ILoopAuditCheck; ILoopAuditConfirm; ILoopCap;
      ILoopFlushTick; ICycleBegin; ICycleVisit; ICycleEnd].
 
   (* can the loop goroutine, or something that feeds it, still act at this instant? *)
